@@ -86,6 +86,9 @@ def scenarios(t: str, seed: int):
             # removal branch (1X1 feasible / borehole-count bisection) and too-big branch; the spacing-bisection branch takes minutes: thorough tier only
             sc["regime"] = ["small", "rw-removal", "big-continue", "rw-removal", "big-stop"][(i // 6) % 5]
         out.append(sc)
+    # spacing windows that admit no whole number of rows (87 m with b_min = b_max = 5 m): no candidate field; the run must end in a ValueError (F23)
+    for i, meth in enumerate(["RECTANGLE", "BIRECTANGLE", "BIZONEDRECTANGLE"]):
+        out.append({"id": 2000 + i, "method": meth, "pipe": "SINGLEUTUBE", "flow": "BOREHOLE", "regime": "no-count", "kind": "balanced", "months": 12, "seed": seed * 11 + i})
     if t == "thorough":
         for i in range(4):
             out.append({"id": 1000 + i, "method": "ROWWISE", "pipe": "SINGLEUTUBE", "flow": "BOREHOLE", "regime": "rw-bisect", "kind": "balanced", "months": 12, "seed": seed * 7 + i})
@@ -118,10 +121,18 @@ def build(sc):
     if reg == "cap":
         cap = rnd.choice([6, 10, 15])
     m.set_simulation_parameters(num_months=sc["months"], max_eft=35.0, min_eft=5.0, max_height=hmax, min_height=hmin, max_boreholes=cap, continue_if_design_unmet=cont)
-    amp = {"normal": u(2500, 7000), "cap": u(4000, 9000), "small": u(600, 1500), "tiny-continue": u(20, 60), "big-stop": u(1.5e5, 3e5), "big-continue": u(1.5e5, 3e5), "rw-bisect": 12400.0, "rw-removal": u(3500, 9000)}[reg]
+    amp = {"normal": u(2500, 7000), "cap": u(4000, 9000), "small": u(600, 1500), "tiny-continue": u(20, 60), "big-stop": u(1.5e5, 3e5), "big-continue": u(1.5e5, 3e5), "rw-bisect": 12400.0, "rw-removal": u(3500, 9000), "no-count": u(2500, 7000)}[reg]
     m.set_ground_loads_from_hourly_list(profile(amp, sc["kind"], rnd))
     meth = sc["method"]
-    if meth == "NEARSQUARE":
+    if reg == "no-count":
+        nc = {"length": 87.0, "width": 40.0, "b_min": 5.0}
+        if meth == "RECTANGLE":
+            m.set_geometry_constraints_rectangle(b_max=5.0, **nc)
+        elif meth == "BIRECTANGLE":
+            m.set_geometry_constraints_bi_rectangle(b_max_x=5.0, b_max_y=5.2, **nc)
+        else:
+            m.set_geometry_constraints_bi_zoned_rectangle(b_max_x=5.2, b_max_y=5.0, **nc)
+    elif meth == "NEARSQUARE":
         m.set_geometry_constraints_near_square(b=5.0, length=25.0)
     elif meth == "RECTANGLE":
         m.set_geometry_constraints_rectangle(length=24.0, width=18.0, b_min=3.0, b_max=8.0)
